@@ -650,6 +650,8 @@ impl<'a> RustGenerator<'a> {
             .expect("Declarator must exist according to grammar");
 
         let mut is_optional = false;
+        // The annotations of a member apply to every declarator of the member
+        let mut attributes = String::new();
         for annotation_appl in inner_pairs
             .clone()
             .filter(|p| p.as_rule() == Rule::annotation_appl)
@@ -667,7 +669,7 @@ impl<'a> RustGenerator<'a> {
                 .expect("Must have an identifier according to the grammar");
 
             if identifier.as_str() == "key" {
-                self.writer.push_str("#[dust_dds(key)]");
+                attributes.push_str("#[dust_dds(key)]");
             } else if identifier.as_str() == "id" {
                 if let Some(annotation_appl_params) = inner_pairs
                     .clone()
@@ -677,13 +679,13 @@ impl<'a> RustGenerator<'a> {
                         .into_inner()
                         .find(|p| p.as_rule() == Rule::const_expr)
                     {
-                        self.writer
+                        attributes
                             .push_str(&format!("#[dust_dds(id = {})]", const_expr.as_str()));
                     }
                 }
             } else if identifier.as_str() == "optional" {
                 is_optional = true;
-                self.writer.push_str("#[dust_dds(optional)]");
+                attributes.push_str("#[dust_dds(optional)]");
             }
         }
 
@@ -692,6 +694,7 @@ impl<'a> RustGenerator<'a> {
                 .into_inner()
                 .next()
                 .expect("Must have an element according to the grammar");
+            self.writer.push_str(&attributes);
             self.writer.push_str("pub ");
             match array_or_simple_declarator.as_rule() {
                 Rule::array_declarator => {
